@@ -26,8 +26,8 @@ POOL = {
 }
 # executed in this order in ONE interpreter: the options of an earlier call must not influence a later one (the default set
 # comes again after the permissive one)
-OPTION_SETS = [dict(tcr_enforce_functional=False, strict_cdr3_standardization=True), dict(), dict(tcr_precision="allele", mhc_precision="allele"),
-               dict(species="musmusculus"), dict()]
+OPTION_SETS = [dict(tcr_enforce_functional=False, strict_cdr3_standardization=True), dict(tcr_precision="allele"), dict(),
+               dict(mhc_precision="allele"), dict(tcr_precision="allele", mhc_precision="allele"), dict(species="musmusculus"), dict()]
 INVS = ("CellLocal", "MissingStaysMissing", "ExtraColumnsKept", "MergeIsJoin")
 
 
@@ -263,7 +263,7 @@ def run(ctx):
     d = tempfile.mkdtemp(prefix="pvstd_")
     try:
         n = 0
-        for oi, opts in enumerate(OPTION_SETS[: (2 if q else 5)]):
+        for oi, opts in enumerate(OPTION_SETS[: (3 if q else 7)]):
             interner = Interner(opts)
             stdfile = os.path.join(d, f"std{oi}.json")
             with open(stdfile, "w") as f:
